@@ -36,6 +36,9 @@ ModesVerdict(rec) ==
       good == /\ (rec.opened = "err") = fails
               /\ rec.after = AfterExit(rec.mode, rec.existed, rec.before, rec.writes)
               /\ rec.exists_after = (rec.existed \/ (~fails /\ rec.mode # "r"))
+              \* "once flushed": what a second handle reads right after flush(f) is everything written so far
+              \* (rec.mid = <<-1>> when the program did not look)
+              /\ (rec.mid = <<-1>> \/ rec.mid = AfterExit(rec.mode, rec.existed, rec.before, rec.writes))
   IN [id |-> rec.id, v |-> IF good THEN "ok" ELSE "bad", at |-> 0]
 Verdict(rec) == IF rec.kind = "read" THEN ReadVerdict(rec) ELSE ModesVerdict(rec)
 
